@@ -342,7 +342,9 @@ func c05Gen(t *rapid.T) c05Case {
 	case 2:
 		c.Cfg.DSN = "custom"
 		c.Cfg.DSNRet = rapid.SampledFrom([]string{"", "FULL", "HDRS"}).Draw(t, "ret")
-		c.Cfg.DSNNotify = rapid.SampledFrom([][]string{nil, {"NEVER"}, {"SUCCESS"}, {"FAILURE", "DELAY"}, {"SUCCESS", "FAILURE", "DELAY"}, {"DELAY", "DELAY"}}).Draw(t, "notify")
+		c.Cfg.DSNNotify = rapid.SampledFrom([][]string{nil, {"NEVER"}, {"SUCCESS"}, {"FAILURE", "DELAY"}, {"SUCCESS", "FAILURE", "DELAY"}, {"DELAY", "DELAY"},
+			// combinations RFC 3461 does not allow (NEVER stands alone): to be refused, never sent
+			{"SUCCESS", "NEVER"}, {"NEVER", "FAILURE"}, {"FAILURE", "DELAY", "NEVER"}, {"NEVER", "NEVER"}}).Draw(t, "notify")
 		if c.Cfg.DSNRet == "" && len(c.Cfg.DSNNotify) == 0 {
 			c.Cfg.DSNRet = "FULL"
 		}
